@@ -596,4 +596,175 @@ Definition ex_sec : obj :=
    ("only", VArr [VObj [("x", VInt 0%Z); ("y", VInt 0%Z)]]);
    ("w", VArr [VInt 1%Z; VObj [("name", VStr "t1"); ("weights", VObj [("time", VInt 1%Z)])]; VNull])].
 Definition ex_m : obj := [("origin_x", VInt 5%Z); (grid_key, VObj ex_sec); ("destination_x", VInt 7%Z)].
+
+(* ---------- plugin chains: multi-element query states ---------- *)
+
+(* a well-formed query: an object with unique keys *)
+Definition wfq (q : json) : Prop := exists m, q = VObj m /\ NoDup (map fst m).
+
+Lemma oset_keys_in m k v x : In x (map fst (oset m k v)) -> x = k \/ In x (map fst m).
+Proof.
+  induction m as [|[k0 v0] m IH]; cbn.
+  - intros [<-|[]]. left. reflexivity.
+  - destruct (String.eqb k0 k); cbn; [tauto|]. intros [<-|H]; [tauto|]. destruct (IH H); tauto.
+Qed.
+
+Lemma oset_nodup m k v : NoDup (map fst m) -> NoDup (map fst (oset m k v)).
+Proof.
+  induction m as [|[k0 v0] m IH]; cbn; intros H.
+  - constructor; [intros [] | constructor].
+  - inversion H as [|? ? Hn Hnd]; subst. destruct (String.eqb k0 k) eqn:E; cbn; [constructor; assumption|].
+    constructor; [|exact (IH Hnd)]. intros Hin. apply oset_keys_in in Hin.
+    destruct Hin as [->|Hin]; [rewrite String.eqb_refl in E; discriminate | exact (Hn Hin)].
+Qed.
+
+Lemma without_nodup m k : NoDup (map fst m) -> NoDup (map fst (without_key m k)).
+Proof.
+  unfold without_key. induction m as [|[k0 v0] m IH]; cbn; intros H; [constructor|].
+  inversion H as [|? ? Hn Hnd]; subst. destruct (negb (String.eqb k0 k)); cbn; [|exact (IH Hnd)].
+  constructor; [|exact (IH Hnd)]. intros Hin. apply Hn.
+  apply in_map_iff in Hin. destruct Hin as [kv [<- Hkv]]. apply filter_In in Hkv.
+  apply in_map. exact (proj1 Hkv).
+Qed.
+
+Lemma fold_oset_nodup (l : list (string * json)) base :
+  NoDup (map fst base) -> NoDup (map fst (fold_left oset_kv l base)).
+Proof.
+  revert base. induction l as [|kv l IH]; intros base H; [exact H|].
+  cbn [fold_left]. apply IH. apply oset_nodup. exact H.
+Qed.
+
+Lemma overlay_nodup base c : NoDup (map fst base) -> NoDup (map fst (overlay base c)).
+Proof. intros H. rewrite overlay_assigns. apply fold_oset_nodup. exact H. Qed.
+
+Lemma add_section_wf p section q : wfq q -> wfq (add_section p section q).
+Proof.
+  intros [m [-> H]]. cbn [add_section]. destruct (pred_holds p m).
+  - eexists. split; [reflexivity | apply oset_nodup; exact H].
+  - exists m. split; [reflexivity | exact H].
+Qed.
+
+Lemma spec_wf q l : wfq q -> spec q = Some l -> Forall wfq l.
+Proof.
+  intros [m [-> Hnd]] Hs. cbn [spec] in Hs.
+  destruct (oget m grid_key) as [section|] eqn:Hg.
+  - destruct section as [| | | | | |sec]; try discriminate.
+    destruct (mentions (VObj sec)); [discriminate|].
+    destruct (existsb _ (axes sec)); [discriminate|]. injection Hs as <-.
+    apply Forall_forall. intros x Hx. apply in_map_iff in Hx. destruct Hx as [c [<- _]].
+    eexists. split; [reflexivity|]. apply overlay_nodup, without_nodup. exact Hnd.
+  - injection Hs as <-. constructor; [|constructor]. exists m. split; [reflexivity | exact Hnd].
+Qed.
+
+Definition unnest (v : json) : list json := match v with VArr sub => sub | other => [other] end.
+
+(* the plugin on one well-formed query inside the domain: the value left in place, unnested,
+   is the specified expansion *)
+Lemma process_spec q l : wfq q -> spec q = Some l -> exists r, process q = Ok r /\ unnest r = l.
+Proof.
+  intros [m [-> Hnd]] Hs. cbn [spec] in Hs.
+  destruct (oget m grid_key) as [section|] eqn:Hg.
+  - destruct section as [| | | | | |sec]; try discriminate.
+    destruct (mentions (VObj sec)) eqn:Hm; [discriminate|].
+    destruct (existsb (fun a => GS.is_nil (snd a)) (axes sec)) eqn:Hne; [discriminate|].
+    injection Hs as <-. eexists. split; [exact (process_section m sec Hg Hm Hne)|].
+    cbn [unnest]. unfold expansion. rewrite map_map, (oremove_without m grid_key Hnd). reflexivity.
+  - injection Hs as <-. exists (VObj m). split; [|reflexivity].
+    apply process_passthrough. exact Hg.
+Qed.
+
+Lemma flatten_unnest (rs : list json) : flatten_in_place (VArr rs) = Ok (VArr (flat_map unnest rs)).
+Proof.
+  cbn [flatten_in_place]. destruct (forallb (fun v => negb (is_array v)) rs) eqn:E; [|reflexivity].
+  f_equal. f_equal. induction rs as [|r rs IH]; [reflexivity|].
+  cbn [forallb] in E. apply andb_prop in E. destruct E as [Er E].
+  cbn [flat_map]. rewrite <- (IH E). destruct r; try reflexivity. discriminate.
+Qed.
+
+Lemma flat_map_opt_wf (qs l : list json) :
+  Forall wfq qs -> flat_map_opt spec qs = Some l -> Forall wfq l.
+Proof.
+  intros H. revert l. induction H as [|q qs Hq H IH]; intros l Hs; cbn [flat_map_opt] in Hs.
+  - injection Hs as <-. constructor.
+  - destruct (spec q) as [x|] eqn:Ex; [|discriminate].
+    destruct (flat_map_opt spec qs) as [y|]; [|discriminate]. injection Hs as <-.
+    apply Forall_app. split; [exact (spec_wf q x Hq Ex) | exact (IH y eq_refl)].
+Qed.
+
+(* a grid stage on a multi-element state: every query replaced by its expansion, in place,
+   whichever elements expand *)
+Lemma array_op_grid (qs l : list json) :
+  Forall wfq qs -> flat_map_opt spec qs = Some l -> array_op process (VArr qs) = Ok (VArr l).
+Proof.
+  intros H Hs. assert (Hrs : exists rs, mapM process qs = Ok rs /\ flat_map unnest rs = l).
+  { revert l Hs. induction H as [|q qs Hq H IH]; intros l Hs; cbn [flat_map_opt] in Hs.
+    - injection Hs as <-. exists []. split; reflexivity.
+    - destruct (spec q) as [x|] eqn:Ex; [|discriminate].
+      destruct (flat_map_opt spec qs) as [y|]; [|discriminate]. injection Hs as <-.
+      destruct (process_spec q x Hq Ex) as [r [Hr Hu]]. destruct (IH y eq_refl) as [rs [Hrs Hf]].
+      exists (r :: rs). split; [cbn [mapM]; rewrite Hr, Hrs; reflexivity|].
+      cbn [flat_map]. rewrite Hu, Hf. reflexivity. }
+  destruct Hrs as [rs [Hm <-]]. unfold array_op. rewrite Hm. cbn [bind]. apply flatten_unnest.
+Qed.
+
+Lemma array_op_add p section (qs : list json) :
+  Forall wfq qs ->
+  array_op (fun q => Ok (add_section p section q)) (VArr qs) = Ok (VArr (map (add_section p section) qs)).
+Proof.
+  intros H. unfold array_op.
+  assert (Hm : mapM (fun q => Ok (add_section p section q)) qs = Ok (map (add_section p section) qs)).
+  { clear H. induction qs as [|q qs IH]; [reflexivity|]. cbn [mapM bind map]. rewrite IH. reflexivity. }
+  rewrite Hm. cbn [bind]. rewrite flatten_unnest. f_equal. f_equal. clear Hm.
+  induction H as [|q qs Hq H IH]; [reflexivity|]. cbn [map flat_map]. rewrite IH.
+  destruct (add_section_wf p section q Hq) as [m [-> _]]. reflexivity.
+Qed.
+
+Definition chain_stages (stages : list stage) (st : res json) : res json :=
+  fold_left (fun acc p => do s <- acc; array_op p s) (map stage_op stages) st.
+Definition spec_fold (stages : list stage) (acc : option (list json)) : option (list json) :=
+  fold_left (fun acc s => match acc with Some qs => spec_stage s qs | None => None end) stages acc.
+
+Lemma spec_fold_none stages : spec_fold stages None = None.
+Proof. induction stages as [|s stages IH]; [reflexivity | exact IH]. Qed.
+
+Lemma chain_stages_spec stages : forall (qs l : list json),
+  Forall wfq qs -> spec_fold stages (Some qs) = Some l ->
+  chain_stages stages (Ok (VArr qs)) = Ok (VArr l) /\ Forall wfq l.
+Proof.
+  induction stages as [|s stages IH]; intros qs l H Hs.
+  - injection Hs as <-. split; [reflexivity | exact H].
+  - unfold spec_fold in Hs. cbn [fold_left] in Hs. fold (spec_fold stages (spec_stage s qs)) in Hs.
+    destruct (spec_stage s qs) as [qs'|] eqn:Es; [|rewrite spec_fold_none in Hs; discriminate].
+    unfold chain_stages. cbn [map fold_left bind].
+    assert (Hstep : array_op (stage_op s) (VArr qs) = Ok (VArr qs') /\ Forall wfq qs').
+    { destruct s as [|p section]; cbn [spec_stage stage_op] in *.
+      - split; [exact (array_op_grid qs qs' H Es) | exact (flat_map_opt_wf qs qs' H Es)].
+      - injection Es as <-. split; [exact (array_op_add p section qs H)|].
+        apply Forall_forall. intros x Hx. apply in_map_iff in Hx. destruct Hx as [q [<- Hq]].
+        apply add_section_wf. exact (proj1 (Forall_forall _ _) H q Hq). }
+    destruct Hstep as [Hop Hwf]. rewrite Hop. exact (IH qs' l Hwf Hs).
+Qed.
+
+(* the chain specification evaluated in the S stream is what the model computes, for every
+   chain of grid search plugins and stub plugins *)
+Lemma spec_stages_sound stages q l :
+  (forall m, q = VObj m -> NoDup (map fst m)) -> spec_stages stages q = Some l ->
+  run_stages stages q = Ok l.
+Proof.
+  intros Hwf Hs. unfold spec_stages in Hs. fold (spec_fold stages (if is_object q then Some [q] else None)) in Hs.
+  destruct q as [| | | | | |m]; try (cbn [is_object] in Hs; rewrite spec_fold_none in Hs; discriminate).
+  cbn [is_object] in Hs.
+  assert (Hq : Forall wfq [VObj m]) by (constructor; [exists m; split; [reflexivity | exact (Hwf m eq_refl)] | constructor]).
+  destruct (chain_stages_spec stages [VObj m] l Hq Hs) as [Hc Hl].
+  unfold run_stages, apply_input_plugins. cbn [is_object negb]. fold (chain_stages stages (Ok (VArr [VObj m]))).
+  rewrite Hc. cbn [bind array_flatten].
+  replace (forallb is_object l) with true; [reflexivity|].
+  symmetry. clear Hc Hs. induction Hl as [|x l [mx [-> _]] Hl IH]; [reflexivity | exact IH].
+Qed.
+
+Definition spec_stages_result (stages : list stage) (q : json) : res (list json) :=
+  match spec_stages stages q with Some l => Ok l | None => Err "unspecified" end.
+
+Lemma run_is_run_stages n q : run n q = run_stages (repeat SGrid n) q.
+Proof. unfold run, run_stages. f_equal. induction n as [|n IH]; [reflexivity|]. cbn. rewrite <- IH. reflexivity. Qed.
 End AnyFloat.
